@@ -194,7 +194,13 @@ impl G {
     }
 
     fn write_op(&mut self, s: u32) -> String {
-        match self.r.below(6) {
+        // SetVIDVerificationStatement stores the fabric record at once unless it rides along with staged
+        // changes of the fail-safe's fabric: asked for more often right after a deferred write
+        if self.deferred_case_write && self.r.chance(1, 3) {
+            return format!("vvs {} {}", s, self.r.range(1, 9));
+        }
+        match self.r.below(7) {
+            6 => format!("vvs {} {}", s, self.r.range(1, 9)),
             4 => format!("gkm {} {}", s, self.r.range(1, 9)),
             5 => format!("bcw {} {}", s, self.r.range(1, 9)),
             0 => format!("acl {} {}", s, self.r.range(200, 203)),
@@ -555,7 +561,7 @@ fn h_compat(ops: &[String]) -> Vec<String> {
         let w: Vec<&str> = op.split_whitespace().collect();
         let n = |i: usize| -> u64 { w.get(i).and_then(|x| x.parse().ok()).unwrap_or(0) };
         let kind = w.first().copied().unwrap_or("");
-        if ["open", "arm", "csr", "root", "addnoc", "updnoc", "acl", "grp", "label", "net", "rmnet", "complete", "rmfab", "revoke", "bcw", "gkm", "addgrp", "ksw"].contains(&kind) {
+        if ["open", "arm", "csr", "root", "addnoc", "updnoc", "acl", "grp", "label", "net", "rmnet", "complete", "rmfab", "revoke", "bcw", "gkm", "addgrp", "ksw", "vvs"].contains(&kind) {
             last_sid = n(1);
         }
         match kind {
@@ -664,7 +670,7 @@ pub fn gen(prop: &'static str, a: &Args) -> String {
     let rule = match prop {
         "C07" => "one administrative history on the real FailSafe/Fabrics/Sessions/resumption objects, generated online (65-90% the next sensible commissioning step, rest out-of-order / other-session / time / restart / removal noise); every 8th history: 1-2 fabrics with CASE sessions and resumption records, the factory reset of the running node with the store fault on its k-th store call (k over all 261 positions incl. none), NO restart, re-commissioning (index re-used), then resumption with the old records / commands over the old sessions; non-trivial = a fabric disappeared (RemoveFabric, fail-safe rollback, factory reset) while sessions or resumption records existed; distinct = by operation list",
         "C11" => "one administrative history with restarts, crash points (restart from the store after the n-th mutation), store faults, factory resets and corrupted resumption blobs; non-trivial = a restart/crash/reset happened after at least one store mutation; distinct = by operation list",
-        _ => "one administrative history generated online (65-90% the next sensible commissioning step, rest out-of-order / repeated / other-session commands, expiry by timer / ArmFailSafe(0) / revoke / restart, store faults); non-trivial = the fail-safe was armed, a credential/ACL/group/label/network change was accepted under it, and the fail-safe ended (completed or rolled back); distinct = by operation list",
+        _ => "one administrative history generated online (65-90% the next sensible commissioning step, rest out-of-order / repeated / other-session commands, fabric-scoped writes incl. SetVIDVerificationStatement - asked for 1 in 3 while a deferred write is pending -, expiry by timer / ArmFailSafe(0) / revoke / restart, store faults); non-trivial = the fail-safe was armed, a credential/ACL/group/label/network change was accepted under it, and the fail-safe ended (completed or rolled back); distinct = by operation list",
     };
     out.buf.push_str(&format!("#rule {}\n", rule));
     let n_cases = if a.thorough { 20000 } else { 3000 };
